@@ -57,6 +57,7 @@ fn fixed_shapes(ints: &[i64]) -> Vec<Shape> {
     v.push(sh("array [1]", array(vec![int(1)])));
     v.push(sh("array nested", array(vec![array(vec![int(1)]), string("a"), float(2.5), boolean(true)])));
     v.push(Shape { name: "function".into(), setup: vec![let_("fn_waarde", func("", &[], vec![es(int(1))]))], expr: ident("fn_waarde") });
+    v.push(Shape { name: "aliased array".into(), setup: vec![let_("rij", array(vec![int(0), int(7)]))], expr: array(vec![ident("rij"), array(vec![int(1), ident("rij")]), int(2)]) });
     v.push(Shape {
         name: "cyclic array".into(),
         setup: vec![let_("kring", array(vec![int(0)])), es(assign(index(ident("kring"), int(0)), ident("kring")))],
